@@ -13,9 +13,17 @@
 //! D. compiled-size limit: oversize patterns under a small `regex_set_compiled_size_limit`
 //!    are rejected at parse time, accepted under the default.
 //!
-//! op lines (see lean/WfModel/Drv/Wild.lean):
+//! op lines (see lean/WfModel/Drv/Wild.lean, lean/WfModel/Drv/Rx.lean):
 //!   rxscan <hex text after the opening quote> <p|e|o|r>
-//!   rxm <kind> ...      (model answers `skip`; checked harness-side)
+//!   rxm match <hex pattern> <hex value> <m|s>      pattern given to the engine in raw spelling
+//!   rxm lit <hex literal as written> <hex value> <m|s>   (quoted or raw literal)
+//!   rxm targeted <hex literal as written> <hex value> <m|s>
+//!       answered by the PROVED derivative matcher of lean/WfModel/Model/Rx.lean when the
+//!       pattern is inside the model's subset. `m` = the generator claims it is (the driver
+//!       answers `nosubset` instead of `skip` if its parser disagrees, which shows up as a
+//!       disagreement), `s` = the driver may answer `skip` (flags `(?i)`, `(?s)`, `(?-u:`).
+//!       All of them are additionally checked harness-side against the reference matcher.
+//!   rxm invalid|size|rejected ...   (model answers `skip`; checked harness-side)
 use super::wild::error_kind_text;
 use crate::Cfg;
 use crate::out::{Out, hex};
@@ -148,6 +156,7 @@ fn raw_literal(p: &str) -> String {
 enum Re {
     Byte(u8),
     Hex(u8),
+    Char(char), // written as itself: unescaped ASCII punctuation or a non-ASCII character (UTF-8 bytes)
     Dot,
     Class(bool, Vec<(u8, u8)>, bool), // negated, ranges, quote written as \" inside the class
     Perl(char),
@@ -189,6 +198,7 @@ fn render(re: &Re, out: &mut String) {
     match re {
         Re::Byte(c) => render_byte(*c, out),
         Re::Hex(c) => out.push_str(&format!("\\x{c:02x}")),
+        Re::Char(c) => out.push(*c),
         Re::Dot => out.push('.'),
         Re::Class(neg, rs, eq) => {
             out.push('[');
@@ -229,7 +239,7 @@ fn render(re: &Re, out: &mut String) {
         }
         Re::Rep(x, k) => {
             match **x {
-                Re::Byte(_) | Re::Hex(_) | Re::Dot | Re::Class(..) | Re::Perl(_) | Re::Group(..) => render(x, out),
+                Re::Byte(_) | Re::Hex(_) | Re::Char(_) | Re::Dot | Re::Class(..) | Re::Perl(_) | Re::Group(..) => render(x, out),
                 _ => {
                     out.push_str("(?:");
                     render(x, out);
@@ -281,6 +291,12 @@ fn m(re: &Re, inp: &[u8], i: usize, f: Flags, k: &mut dyn FnMut(usize) -> bool) 
     let one = |ok: &dyn Fn(u8) -> bool, k: &mut dyn FnMut(usize) -> bool| i < inp.len() && ok(inp[i]) && k(i + 1);
     match re {
         Re::Byte(c) | Re::Hex(c) => one(&|b| b == *c || (f.ci && swapcase(b) == *c), k),
+        Re::Char(c) => {
+            let mut buf = [0u8; 4];
+            let bs = c.encode_utf8(&mut buf).as_bytes();
+            let n = bs.len();
+            i + n <= inp.len() && (0..n).all(|j| inp[i + j] == bs[j] || (f.ci && swapcase(inp[i + j]) == bs[j])) && k(i + n)
+        }
         Re::Dot => one(&|b| b != b'\n' || f.dotall, k),
         Re::Class(neg, rs, _) => one(
             &|b| {
@@ -319,10 +335,14 @@ fn search(re: &Re, inp: &[u8], f: Flags) -> bool {
 }
 
 const LITS: &[u8] = b"abAB01 _.\"[]-^$*+?()|\\/{}#&~\n";
+/// characters written as themselves: punctuation that needs no escape outside a class
+/// (`]` and `}` included), and non-ASCII characters of 2, 3 and 4 UTF-8 bytes
+const CHARS: &[char] = &[']', '}', '/', '#', '&', '~', '-', ',', ':', '=', '!', '@', '%', '<', '>', '\'', ';', 'é', 'é', 'ß', '€', '😀'];
 
 fn gen_atom(rng: &mut Rng, depth: u32) -> Re {
     match rng.below(if depth == 0 { 9 } else { 12 }) {
-        0..=3 => Re::Byte(*rng.pick(LITS)),
+        0 => Re::Char(*rng.pick(CHARS)),
+        1..=3 => Re::Byte(*rng.pick(LITS)),
         4 => Re::Hex(*rng.pick(&[0x00u8, 0x0a, 0x7f, 0x80, 0xc3, 0xa9, 0xff])),
         5 => Re::Dot,
         6 | 7 => {
@@ -336,7 +356,10 @@ fn gen_atom(rng: &mut Rng, depth: u32) -> Re {
             Re::Class(rng.chance(1, 3), rs, rng.chance(1, 2))
         }
         8 => Re::Perl(*rng.pick(&['d', 'w', 's', 'D', 'W', 'S'])),
-        9 | 10 => Re::Group(Box::new(gen_re(rng, depth - 1, false)), rng.chance(1, 2)),
+        9 | 10 => {
+            let anchors = rng.chance(1, 3);
+            Re::Group(Box::new(gen_re(rng, depth - 1, anchors)), rng.chance(1, 2))
+        }
         _ => Re::Rep(Box::new(gen_atom(rng, depth - 1)), *rng.pick(&['?', '*', '+'])),
     }
 }
@@ -370,6 +393,10 @@ fn gen_re(rng: &mut Rng, depth: u32, anchors: bool) -> Re {
 fn sample(re: &Re, rng: &mut Rng, out: &mut Vec<u8>) {
     match re {
         Re::Byte(c) | Re::Hex(c) => out.push(*c),
+        Re::Char(c) => {
+            let mut buf = [0u8; 4];
+            out.extend_from_slice(c.encode_utf8(&mut buf).as_bytes());
+        }
         Re::Dot => out.push(*rng.pick(&[b'x', 0xff, b'A'])),
         Re::Class(neg, rs, _) => {
             if *neg {
@@ -427,7 +454,11 @@ fn exec(s: &Scheme, f: &Filter, v: &[u8]) -> String {
 
 fn subset_case(s: &Scheme, out: &mut Out, rng: &mut Rng) {
     let re = gen_re(rng, 2, true);
-    let flags = Flags { ci: rng.chance(1, 5), dotall: rng.chance(1, 6) };
+    let flags = Flags { ci: rng.chance(1, 8), dotall: rng.chance(1, 10) };
+    // everything the generator writes except the flag prefix is inside the model's subset
+    let in_model = !(flags.ci || flags.dotall);
+    let mflag = if in_model { "m" } else { "s" };
+    let mtag = if in_model { "rxm.model_answers" } else { "rxm.model_may_skip" };
     let mut p = String::new();
     if flags.ci || flags.dotall {
         p.push_str("(?");
@@ -498,10 +529,14 @@ fn subset_case(s: &Scheme, out: &mut Out, rng: &mut Rng) {
     }
     for v in &vals {
         let a = exec(s, &fraw, v);
-        let op = format!("rxm match {} {}", hex(p.as_bytes()), hex(v));
-        out.case(&op, &a, Some(&op), &["rx.subset.match", if a == "true" { "ans.true" } else { "ans.false" }, if v.iter().any(|c| *c >= 0x80) { "val.nonutf8" } else { "val.ascii" }]);
+        let op = format!("rxm match {} {} {mflag}", hex(p.as_bytes()), hex(v));
+        out.case(&op, &a, Some(&op), &["rx.subset.match", mtag, if a == "true" { "ans.true" } else { "ans.false" }, if v.iter().any(|c| *c >= 0x80) { "val.nonutf8" } else { "val.ascii" }]);
         if let Some((fq, _)) = &fq {
             let b = exec(s, fq, v);
+            // the quoted spelling goes through the engine's scanner and, in the model, through
+            // the model scanner + the proved matcher
+            let opq = format!("rxm lit {} {} {mflag}", hex(quoted.as_ref().unwrap().as_bytes()), hex(v));
+            out.case(&opq, &b, Some(&opq), &["rx.subset.match_quoted", mtag]);
             if a != b {
                 out.impl_failure(&op, &format!("quoted and raw spelling of {p:?} disagree on value {}: raw {a}, quoted {b}", hex(v)));
             }
@@ -564,11 +599,12 @@ fn targeted(s: &Scheme, out: &mut Out) {
             } else {
                 raw_literal(p)
             };
-            let op = format!("rxm targeted {} {}", hex(lit.as_bytes()), hex(v));
+            let in_model = !p.contains("(?");
+            let op = format!("rxm targeted {} {} {}", hex(lit.as_bytes()), hex(v), if in_model { "m" } else { "s" });
             match compile_lit(s, &lit) {
                 Ok((f, seen)) => {
                     let a = exec(s, &f, v);
-                    out.case(&op, &a, Some(&op), &["rx.targeted"]);
+                    out.case(&op, &a, Some(&op), &["rx.targeted", if in_model { "rxm.model_answers" } else { "rxm.model_may_skip" }]);
                     if seen != *p {
                         out.impl_failure(&op, &format!("AST JSON pattern {seen:?} differs from written {p:?}"));
                     }
@@ -594,6 +630,46 @@ fn targeted(s: &Scheme, out: &mut Out) {
         // no regex-syntax version we know of
         if r.is_ok() && !matches!(p, r"\p{Greek}" | "(?u:\\xff)") {
             out.impl_failure(&op, &format!("invalid regex {p:?} was accepted"));
+        }
+    }
+}
+
+/// Hand-written corner patterns of the model's subset (spellings the generator does not
+/// write) x fixed values; the only oracle here is the proved Lean matcher (`m`: the driver
+/// must answer). Patterns the model places outside its subset are sent with `s`.
+fn corners(s: &Scheme, out: &mut Out) {
+    let inside: &[&str] = &[
+        "^*a", "()", "()*a", "(|a)b", "a||b", "]", "}", "a]b}", r"\t\r\f\v\a", r"a\ b\_\%", r"[\xe9]", "$*", "$a", "a^b", "(^)*a", "(a$)*", "(^|a)+b", "(a|$)+",
+        "x*", "|", "(|)", "a|", r"[\]]", r"[\^a]", r"\-", r"\#\&\~\'\`\,\=\@\!\:\;\/", r"[\n]", r"[\t-\r]", r"\xFf", "é*", "€+x", "(é|ß)+$",
+        "[a-zA-Z]", r"[\x00-\x7f]", r"[\W]", r"[^\W]", r"[^\d\s]", "(?:)", "(?:)*", r"\\", "(a*)*b", "(a|ab)(c|bcd)(d*)", "(a+|b+)*c", "^(a|b)*$", ".*", "^.*$", "a.*b$", r"[^\n]*\n",
+    ];
+    let outside: &[&str] = &[
+        r"\<", r"\>", "[a-]", "[-a]", "[]a]", "[a^]", "[a&]", "[a~b]", "[a-b-c]", "[[a]]", "[[:alpha:]]", "a**", "a*?", "a+*", "(?P<n>a)", "(?<n>a)", "a{2}", r"\x{41}", r"\z", r"\A", r"\b", "[^^]",
+        "[^-a]", "(?i:a)", "(?-u:a)", "(?m)^a$", "a{1,2}?", r"\Ba",
+    ];
+    let vals: &[&[u8]] = &[
+        b"", b"a", b"b", b"ba", b"ab", b"aab", b"abcd", b"abbcd", b"]", b"}", b"a]b}", b"\t\r\x0c\x0b\x07", b"a b_%", b"\xc3\xa9\xc3\xa9", b"\xc3\x9f\xc3\xa9", b"\xe2\x82\xac\xe2\x82\xacx", b"-", b"^", b"\\",
+        b"\xe9", b"#&~'`,=@!:;/", b"\n", b"a\n", b"a\nb", b"Z9_ ", b"\xff", b"aaac", b"abab", b"xa",
+    ];
+    for (list, flag) in [(inside, "m"), (outside, "s")] {
+        for p in list {
+            match compile_lit(s, &raw_literal(p)) {
+                Ok((f, seen)) => {
+                    if seen != *p {
+                        out.impl_failure(&format!("rxm match {}", hex(p.as_bytes())), &format!("AST JSON pattern {seen:?} differs from written {p:?}"));
+                    }
+                    for v in vals {
+                        let a = exec(s, &f, v);
+                        let op = format!("rxm match {} {} {flag}", hex(p.as_bytes()), hex(v));
+                        out.case(&op, &a, Some(&op), &["rx.corner", if flag == "m" { "rxm.model_answers" } else { "rxm.model_may_skip" }]);
+                    }
+                }
+                Err(k) => {
+                    let op = format!("rxm rejected {}", hex(p.as_bytes()));
+                    out.case(&op, "err", None, &["rx.corner.rejected"]);
+                    out.impl_failure(&op, &format!("corner pattern {p:?} rejected: {k}"));
+                }
+            }
         }
     }
 }
@@ -686,6 +762,7 @@ pub fn run(cfg: Cfg, out: &mut Out) {
             out.case(&op, &ans, Some(&op), &["rx.scan.handwritten"]);
         }
         targeted(&s, out);
+        corners(&s, out);
         size_limits(&s, out);
     }
     // B. generated subset
@@ -693,7 +770,14 @@ pub fn run(cfg: Cfg, out: &mut Out) {
     for _ in 0..n_sub {
         subset_case(&s, out, &mut rng);
     }
-    out.notes.push("rx subset: literals, \\xHH, ., classes (negated, ranges, quotes/brackets inside), \\d\\w\\s\\D\\W\\S, ? * +, alternation, groups, ^ $, (?i), (?s); each in quoted and raw spelling x ~22 values; compared with a backtracking reference matcher".to_string());
+    {
+        let m = out.hist.get("rxm.model_answers").copied().unwrap_or(0);
+        let k = out.hist.get("rxm.model_may_skip").copied().unwrap_or(0);
+        if m + k > 0 && cfg.mine(0) {
+            out.notes.push(format!("(shard 0) rxm match/lit/targeted lines answered by the proved Lean matcher (pattern inside the model subset, enforced: the driver answers `nosubset`, not `skip`, on them): {m} of {} = {:.1}%", m + k, 100.0 * m as f64 / (m + k) as f64));
+        }
+    }
+    out.notes.push("rx subset: literals (escaped, unescaped punctuation, non-ASCII characters), \\xHH, ., classes (negated, ranges, quotes/brackets inside), \\d\\w\\s\\D\\W\\S, ? * +, alternation, groups, ^ $, (?i), (?s); each in quoted and raw spelling x ~22 values; compared with a backtracking reference matcher".to_string());
 }
 
 fn unhex(s: &str) -> Option<Vec<u8>> {
@@ -714,7 +798,7 @@ pub fn replay(op: &str) -> Option<String> {
             let after = String::from_utf8(unhex(after)?).ok()?;
             Some(scan_case(&s, &after).1)
         }
-        ["rxm", "match", p, v] => {
+        ["rxm", "match", p, v] | ["rxm", "match", p, v, _] => {
             let p = String::from_utf8(unhex(p)?).ok()?;
             let v = unhex(v)?;
             match compile_lit(&s, &raw_literal(&p)) {
@@ -722,7 +806,7 @@ pub fn replay(op: &str) -> Option<String> {
                 Err(_) => Some("err".to_string()),
             }
         }
-        ["rxm", "targeted", lit, v] => {
+        ["rxm", "targeted", lit, v] | ["rxm", "targeted", lit, v, _] | ["rxm", "lit", lit, v] | ["rxm", "lit", lit, v, _] => {
             let lit = String::from_utf8(unhex(lit)?).ok()?;
             let v = unhex(v)?;
             match compile_lit(&s, &lit) {
